@@ -267,6 +267,8 @@ pub struct SieveQS<'a> {
 
 impl<'a> SieveQS<'a> {
     pub fn new(n: Uint, fbase: &'a FBase, maxlarge: u64, use_double: bool) -> Self {
+        #[cfg(yamaquasi_verif)]
+        crate::params::verif_strategy_record("qs.maxlarge", 0, maxlarge, 0.0);
         let mut nsqrt = isqrt(n);
         let only_odds = if n.low_u64() % 8 == 1 {
             // If n == 1 mod 8, only use odd numbers.
@@ -531,3 +533,7 @@ fn verif_root_log_push(bck: bool, offset: i64, r1: &[u32], r2: &[u32]) {
         }
     });
 }
+
+// ---------------------------------------------------------------------------
+// Verification hooks (add-only, compiled only with --cfg yamaquasi_verif).
+
